@@ -709,3 +709,6 @@ def classify(c, o, failure, disagrees):
     if c["kind"] == "subdivide_segments_zero_length" and failure == SEGS_ZERO and not disagrees:
         return "subdivide_segments_zero_length"
     return None
+
+# added with seeded rounds 6-7 (DESIGN 8.6)
+RULE = RULE + "; stacked point_along_path is called twice with the caller's own float64 array of fractions, which must come back unchanged and give the same points"
